@@ -136,6 +136,12 @@ def units(tier, seed):
                 tree = 2 if tier == "quick" else 3
             out.append({"members": members, "style": style, "mode": mode, "tree": tree})
             k += 1
+    # member names that spell a marker of the archive layer (the global magic, the header terminator)
+    for nm in ("!<arch>\nx", "`\nab", "!<arch>"):
+        for mode in ("shared", "fname"):
+            members = [(nm, cs[6]) + META[k % 3], ("m1", cs[1]) + META[(k + 1) % 3]]
+            out.append({"members": members, "style": ("gnu", "bsd")[k % 2], "mode": mode, "tree": 2})
+            k += 1
     # a real, named file object whose path has meanwhile been given to another archive
     named = [(c,) for c in core4] + [(x, y) for x in core4[1:] for y in core4[1:]] + [(cs[7], cs[0], cs[3])]
     for arch in named:
